@@ -24,6 +24,7 @@ pub struct VacantEntry<'a, P, T> {
 pub struct OccupiedEntry<'a, P, T> {
     pub(super) node: &'a mut Node<P, T>,
     pub(super) prefix: P, // needed to replace the prefix on the thing if we perform insert.
+    pub(super) count: &'a std::sync::atomic::AtomicUsize, // number of values in the map
 }
 
 impl<P, T> Entry<'_, P, T> {
@@ -155,7 +156,13 @@ where
     pub fn or_insert(self, default: T) -> &'a mut T {
         match self {
             Entry::Vacant(e) => e._insert(default).value.as_mut().unwrap(),
-            Entry::Occupied(e) => e.node.value.get_or_insert(default),
+            Entry::Occupied(e) => {
+                // the value is only missing if `OccupiedEntry::remove` was called before.
+                if e.node.value.is_none() {
+                    e.count.fetch_add(1, std::sync::atomic::Ordering::Relaxed);
+                }
+                e.node.value.get_or_insert(default)
+            }
         }
     }
 
@@ -183,7 +190,15 @@ where
     pub fn or_insert_with<F: FnOnce() -> T>(self, default: F) -> &'a mut T {
         match self {
             Entry::Vacant(e) => e._insert(default()).value.as_mut().unwrap(),
-            Entry::Occupied(e) => e.node.value.get_or_insert_with(default),
+            Entry::Occupied(e) => {
+                // the value is only missing if `OccupiedEntry::remove` was called before.
+                let was_none = e.node.value.is_none();
+                let value = e.node.value.get_or_insert_with(default);
+                if was_none {
+                    e.count.fetch_add(1, std::sync::atomic::Ordering::Relaxed);
+                }
+                value
+            }
         }
     }
 
@@ -256,7 +271,7 @@ where
             DirectionForInsert::Reached => {
                 // increment the count, as node.value will be `None`. We do it here as we borrow
                 // `map` mutably in the next line.
-                self.map.count += 1;
+                self.map.table.inc_count();
                 let node = &mut self.map.table[self.idx];
                 node.prefix = self.prefix;
                 debug_assert!(node.value.is_none());
@@ -388,8 +403,9 @@ impl<P, T> OccupiedEntry<'_, P, T> {
     /// # fn main() {}
     /// ```
     pub fn insert(self, value: T) -> T {
+        let old_value = std::mem::replace(self.node.value.as_mut().unwrap(), value);
         self.node.prefix = self.prefix;
-        self.node.value.replace(value).unwrap()
+        old_value
     }
 
     /// Remove the current value and return it. The tree will not be modified (the same effect as
@@ -414,7 +430,10 @@ impl<P, T> OccupiedEntry<'_, P, T> {
     /// # fn main() {}
     /// ```
     pub fn remove(&mut self) -> T {
-        self.node.value.take().unwrap()
+        let value = self.node.value.take().unwrap();
+        self.count
+            .fetch_sub(1, std::sync::atomic::Ordering::Relaxed);
+        value
     }
 }
 
